@@ -111,7 +111,10 @@ def step (ds : DState) (toks : List String) : DState × String :=
     | some c, some y, some m, some d, some outs =>
       let din : DayIn := { date := { y := y, m := m, d := d }, out := lookupOutcome outs }
       let tr := dayTrace c din ds.st
-      if tr.keys.any (fun i => !(outs.any (fun x => x.1 = i))) then
+      if (requestPhase c din.date ds.st).crashed then
+        -- KeyError in the request phase: the simulation dies before any outcome exists
+        ({ ds with st := scheduleDay c din ds.st }, "c=1 request-phase")
+      else if tr.keys.any (fun i => !(outs.any (fun x => x.1 = i))) then
         (ds, s!"missing-outcome p={showNatList tr.keys}")
       else
         let s1 := requestPhase c din.date ds.st
